@@ -395,6 +395,9 @@ func c03Codec(c *fw.Ctx, idx int) {
 		if !expectGeom(c, fmt.Sprintf("%s Read (split pattern %d)", m.name, pat), rt, exp, model.Opts{}) {
 			return
 		}
+		if r.Chance(1, 6) {
+			callerScribbles(c, rt) // a decoded geometry is the caller's own
+		}
 		if sr.pos != len(want) {
 			c.Fail("wrong-consumption", "%s: Read consumed %d bytes of a %d byte encoding (pattern %d)", m.name, sr.pos, len(want), pat)
 			return
